@@ -20,5 +20,8 @@ def run(rep, tier):
                        "structures": "vf/rtc/layouts.py STRUCTS, STRUCTS3", "max_members_per_product_space": 4})
     from . import bcommon as B
     B.run_b(rep, cells, ["C03", "C01"], tier=tier)
+    from vf.rtc import morecells
+    extra = [c for c in morecells.three_space_cells(tier, common.seed()) + morecells.stale_cache_cells(tier, common.seed()) if c["action"]["kind"] == "op"]
+    B.run_b(rep, extra, ["C03", "C01"], tier=tier)
     rep.assume("level B compares in complex128 at 1e-8; amplitudes sampled (one seed per cell), structure enumerated",
                "jnp.einsum / reshape / kron / expm are trusted (JAX)")
